@@ -423,12 +423,26 @@ Mon_C12(hp, hn, rp, r) ==
         n \in {x \in UpNodes(r) : ND(r, x).role # "L" /\ ND(r, x).leaseAny
                                   /\ ~(ND(rp, x).up /\ ND(rp, x).role # "L" /\ ND(rp, x).leaseAny)}}
 
+
+(***************************************************************************)
+(* Epilogue monitors: C30 (no silently dropped request), C32 (recovery)     *)
+(***************************************************************************)
+Mon_C30(r) ==
+  LET oe == Evs(r, "Outstanding")
+  IN UNION {{V("C30", "AnsweredByDeadline", r, "other", ToString(<<oe[j].ops[k].id, oe[j].ops[k].kind, oe[j].ops[k].nodeRole>>)) :
+               k \in 1..Len(oe[j].ops)} : j \in 1..Len(oe)}
+Mon_C32(hn, r) ==
+  LET re == Evs(r, "Recovered")
+  IN {V("C32", "RecoversAfterHeal", r, CascadeCause(hn),
+        ToString(<<re[j].leader, re[j].writeOk, re[j].lagging>>)) :
+        j \in {x \in 1..Len(re) : re[x].leader = 0 \/ ~re[x].writeOk \/ Len(re[x].lagging) > 0}}
+
 Monitors(hp, hn, rp, r) ==
   Mon_C01(hp, hn, r) \cup Mon_C02(hp, hn, rp, r) \cup Mon_C03(hn, rp, r) \cup Mon_C04(hn, rp, r)
   \cup Mon_C05(hp, hn, rp, r) \cup Mon_C06(hp, hn, rp, r) \cup Mon_C07(hn, rp, r) \cup Mon_C08(hn, rp, r)
   \cup Mon_C09(hn, rp, r) \cup Mon_Client(hp, hn, r) \cup Mon_C14(hn, r) \cup Mon_C31(hp, hn, r)
   \cup Mon_C26(hn, rp, r) \cup Mon_C27(hp, hn, rp, r) \cup Mon_C28(hp, rp, r)
-  \cup Mon_C11(hn, r) \cup Mon_C12(hp, hn, rp, r)
+  \cup Mon_C11(hn, r) \cup Mon_C12(hp, hn, rp, r) \cup Mon_C30(r) \cup Mon_C32(hn, r)
 
 (***************************************************************************)
 (* Layer 2: conformance of the observed step with the DECore operators.     *)
